@@ -2482,6 +2482,12 @@ func (te *TemplateEngine) renderTableTemplate(table *Table, data *TemplateData) 
 	if !exists || len(listData) == 0 {
 		// 删除模板行
 		table.Rows = append(table.Rows[:templateRowIndex], table.Rows[templateRowIndex+1:]...)
+		// 其余行中的普通变量仍需替换
+		for i := range table.Rows {
+			if err := te.replaceVariablesInRow(&table.Rows[i], data); err != nil {
+				return err
+			}
+		}
 		return nil
 	}
 
@@ -2492,6 +2498,10 @@ func (te *TemplateEngine) renderTableTemplate(table *Table, data *TemplateData) 
 	// 保留模板行之前的行（深度克隆以保持样式）
 	for _, row := range table.Rows[:templateRowIndex] {
 		clonedRow := te.cloneTableRow(&row)
+		// 模板行之外的行同样需要替换普通变量（含嵌套表格）
+		if err := te.replaceVariablesInRow(clonedRow, data); err != nil {
+			return err
+		}
 		newRows = append(newRows, *clonedRow)
 	}
 
@@ -2605,12 +2615,32 @@ func (te *TemplateEngine) renderTableTemplate(table *Table, data *TemplateData) 
 	// 保留模板行之后的行（深度克隆以保持样式）
 	for _, row := range table.Rows[templateRowIndex+1:] {
 		clonedRow := te.cloneTableRow(&row)
+		if err := te.replaceVariablesInRow(clonedRow, data); err != nil {
+			return err
+		}
 		newRows = append(newRows, *clonedRow)
 	}
 
 	// 更新表格行
 	table.Rows = newRows
 
+	return nil
+}
+
+// replaceVariablesInRow 替换一个普通表格行（非循环模板行）中的变量，包括嵌套表格
+func (te *TemplateEngine) replaceVariablesInRow(row *TableRow, data *TemplateData) error {
+	for j := range row.Cells {
+		for k := range row.Cells[j].Paragraphs {
+			if err := te.replaceVariablesInParagraph(&row.Cells[j].Paragraphs[k], data); err != nil {
+				return err
+			}
+		}
+		for k := range row.Cells[j].Tables {
+			if err := te.replaceVariablesInTable(&row.Cells[j].Tables[k], data); err != nil {
+				return err
+			}
+		}
+	}
 	return nil
 }
 
